@@ -1183,7 +1183,14 @@ def do_round(
         return round(value, precision)
 
     func = getattr(math, method)
-    return t.cast(float, func(value * (10**precision)) / (10**precision))
+    scaled = value * (10**precision)
+
+    if isinstance(scaled, float) and not math.isfinite(scaled):
+        # inf, nan and floats too large to have a fractional part round to
+        # themselves, math.ceil and math.floor cannot convert them to int
+        return float(value)
+
+    return t.cast(float, func(scaled) / (10**precision))
 
 
 class _GroupTuple(t.NamedTuple):
